@@ -145,6 +145,45 @@ def check_split(case):
     return {'viol': viol}
 
 
+def dep_decls():
+    """Declarations that refer to each other across file boundaries (MATLAB wraps the files as one text)."""
+    I = T('int')
+    return [
+        [D.ns('other', [D.cls('Cd', [D.ctor('Cd', [arg(T('T'), 'v')]), D.method(single(T('T')), 'get', [], 1)], tpl=[D.tparam('T')])]),
+         D.ns('early', [D.typedef(T('Late', t=[I]), 'LateInt')]), D.typedef(T('Late', t=[T('double')]), 'LateDouble')],
+        [D.ns('use', [D.typedef(T('other::Cd', t=[I]), 'CdInt')]), D.fwd('Holder'), D.cls('Late', [D.ctor('Late')], tpl=[D.tparam('U')])],
+        [D.ns('use', [D.typedef(T('Holder', t=[T('double')]), 'HolderD'), D.ns('deep', [D.typedef(T('other::Cd', t=[T('string')]), 'CdStr')])]),
+         D.typedef(T('other::Cd', t=[T('double')]), 'CdDouble'),
+         D.cls('User', [D.ctor('User'), D.method(single(T('use::CdInt')), 'use', [arg(T('early::LateInt', 1, '&'), 'l')], 1)])],
+    ]
+
+
+def check_matlab_dep(case):
+    viol = []
+    texts = []
+    for g in case['groups']:
+        mod = []
+        for i in g:
+            mod += dep_decls()[i]
+        texts.append(D.render(mod).rstrip('\n') + ENDINGS[case['ending']])
+    one = '\n'.join(texts)
+    try:
+        tree_one = gen.matlab(one)
+    except Exception as e:
+        return {'viol': [{'sig': 'C16|matlab-dependent-files|single-file-rejected', 'msg': 'HARNESS? the single file is rejected: %s\n%s' % (e, one)}]}
+    try:
+        tree_multi = gen.matlab(None, files=texts)
+    except Exception as e:
+        return {'viol': [{'sig': 'C16|matlab-dependent-files|rejected', 'msg': 'wrapping the list of %d files fails (%s: %s) while the single file '
+                          'holding the same declarations in sequence works\nsplit=%s ending=%r\n--- files ---\n%s'
+                          % (len(texts), type(e).__name__, str(e)[:200], case['groups'], ENDINGS[case['ending']], '\n=====\n'.join(texts))}]}
+    if tree_multi != tree_one:
+        diff = [k for k in sorted(set(tree_multi) | set(tree_one)) if tree_multi.get(k) != tree_one.get(k)]
+        viol.append({'sig': 'C16|matlab-dependent-files|differs', 'msg': 'wrap(list of %d files) differs from wrap(single file): %s\nsplit=%s ending=%r'
+                     % (len(texts), diff[:6], case['groups'], ENDINGS[case['ending']])})
+    return {'viol': viol}
+
+
 # ------------------------------------------------------------------ (a) compiled composition
 def check_link(case):
     """Main + parts compiled and linked into one extension module; everything must be importable."""
@@ -214,6 +253,7 @@ def check_script(case):
         I = T('int')
         mod = [D.cls('Gl', [D.ctor('Gl')]),
                D.ns('gt', [D.cls('Aa', [D.ctor('Aa'), D.method(single(T('void')), 'serialize', [], 1), D.method(single(I), 'fa', [], 1)]),
+                           D.cls('AaPair', [D.ctor('AaPair')]),
                            D.ns('inner', [D.cls('Bb', [D.ctor('Bb')]), D.func(single(I), 'fi', [])]),
                            D.func(single(I), 'fg', [arg(I, 'a', '1')])]),
                D.func(single(I), 'fglobal', [])]
@@ -290,6 +330,8 @@ def check_script(case):
 def replay(case):
     if case.get('mode') == 'script':
         return check_script(case)['viol']
+    if case.get('mode') == 'matlab-dep':
+        return check_matlab_dep(case)['viol']
     if case.get('mode') == 'link':
         d = gen.mkdtemp('c16r')
         try:
@@ -312,11 +354,14 @@ def run(ctx):
                 for st in ([stems[:3], [stems[0], stems[2], stems[3]]] if ctx.thorough or ext == '.i' else [stems[:3]]):
                     cases.append({'mode': 'split', 'groups': groups, 'ending': ending, 'stems': st, 'ext': ext})
     res = ctx.map(check_split, cases)
+    dcases = [{'mode': 'matlab-dep', 'groups': g, 'ending': e} for g in splits(len(dep_decls()), 3) for e in ENDINGS]
+    resd = ctx.map(check_matlab_dep, dcases)
     # scripts
     scases = []
     for script in ('pybind', 'matlab'):
         for top in ([], ['gt'], ['gt', 'inner']):
-            for ignk, ign in (('absent', None), ('empty', []), ('one', ['gt::Aa']), ('two', ['gt::inner::Bb', 'Gl'])):
+            for ignk, ign in (('absent', None), ('empty', []), ('one', ['gt::Aa']), ('two', ['gt::inner::Bb', 'Gl']),
+                              ('superstring-of-another-class', ['gt::AaPair'])):
                 for sub in ((False, True) if script == 'pybind' else (False,)):
                     for ser in (False, True):
                         scases.append({'mode': 'script', 'script': script, 'top': top, 'ignk': ignk, 'ignore': ign, 'sub': sub, 'ser': ser})
@@ -334,12 +379,13 @@ def run(ctx):
         res3 = ctx.map(check_link, lcases, chunksize=1)
     finally:
         shutil.rmtree(d, ignore_errors=True)
-    allc = cases + scases + lcases
+    allc = cases + dcases + scases + lcases
     return {
         'evaluations': len(allc),
         'distinct_nontrivial': len({repr(sorted((k, str(v)) for k, v in c.items() if k not in ('dir', 'idx'))) for c in allc}),
         'rule': 'all splits of a 4-item declaration sequence into 1..3 files x %d file endings x extensions .i/.h x file stems '
-                '(plain, underscore, dotted); %d script option combinations (top namespace depth 0..2 x --ignore absent/empty/1/2 '
+                '(plain, underscore, dotted); all splits of 3 groups of declarations that refer to each other across the file boundaries (MATLAB); '
+                '%d script option combinations (top namespace depth 0..2 x --ignore absent/empty/1/2/a name that extends another class name '
                 'x --is_submodule x --use-boost-serialization) run as real subprocesses; %d compiled+linked+imported compositions'
                 % (len(ENDINGS), len(scases), len(lcases)),
         'samples': [{'files': [file_text(g, 'line-comment') for g in [[0, 1], [2, 3]]]}],
